@@ -48,6 +48,13 @@ use fx::rates::{FXRate, FXRates};
 #[cfg(feature = "verif-hooks")]
 pub mod verif_hooks;
 
+/// Verification hook: make the `rs` extension module importable in an embedded interpreter.
+/// Must be called before the interpreter is initialised.
+#[cfg(feature = "verif-hooks")]
+pub fn verif_append_to_inittab() {
+    pyo3::append_to_inittab!(rs);
+}
+
 #[pymodule]
 fn rs(m: &Bound<'_, PyModule>) -> PyResult<()> {
     // JSON
